@@ -856,7 +856,7 @@ Proof.
   destruct ((65 <=? c) && (c <=? 70)) eqn:E3; [lia|discriminate].
 Qed.
 
-Definition kind_ok (k : kind) : Prop := match k with KF w n => std_width w /\ 0 < n | _ => True end.
+Definition kind_ok (k : kind) : Prop := match k with KF w n => std_width w /\ 0 <= n | _ => True end.
 
 Lemma parsed_abs w n sh digit s v : parsed w n sh digit s v ->
   abs_wv w v = mkbv (lenw s * sh) (val_of_digits (pow2 sh) (digit_vals digit s)).
